@@ -68,7 +68,7 @@ def name_tag(name):
 # names whose [0]/[1] are (y, x) ordered, and (x, y) ordered
 YX_ORDER = re.compile(r'(shape|size$|sizes$|boxsize|box_size|oversampl|border_width|^slc|slc$|_slc|slices?($|_)|^slice|'
                       r'^yx|filter_size|hshape|kernel_shape|steps?$|^idx$)')
-XY_ORDER = re.compile(r'(^xy|origin$|positions$|xypos|xycen|center_xy|_xy$|peak_xy)')
+XY_ORDER = re.compile(r'(^xy|origin$|positions$|xypos|xycen|center_xy|_xy$|peak_xy|centroid(_win|_quad)?$)')
 
 
 def order_of(expr):
@@ -400,7 +400,7 @@ def _is_extent(e):
 # T-MIRROR
 # ---------------------------------------------------------------------------
 
-def leaves(node):
+def leaves(node, ops=True):
     """(structure signature, [leaf tokens], [leaf kinds]) of a statement/expr."""
     sig = []
     toks = []
@@ -419,7 +419,12 @@ def leaves(node):
             o = order_of(n.value)
             bt = tag(n.value)
             k = _const_index(n.slice)
-            if k in (0, 1) and (o is not None or isinstance(bt, tuple)):
+            own_axis = isinstance(bt, str) or (isinstance(n.value, ast.Attribute) and n.value.attr in ('shape', 'size')
+                                               and (isinstance(tag(n.value.value), str)
+                                                    or (isinstance(n.value.value, ast.Attribute)
+                                                        and isinstance(name_tag(n.value.value.attr.lstrip('_')), str))))
+            if k in (0, 1) and (o is not None or isinstance(bt, tuple)) and not own_axis:
+                # (an array that itself belongs to one axis - xgrid.shape[0] / ygrid.shape[0] - is indexed the same way for both)
                 sig.append('AxisIndex')
                 toks.append(('axidx', k))
                 # keep structure of slice for pair[:, k]
@@ -433,17 +438,37 @@ def leaves(node):
         else:
             for c in ast.iter_child_nodes(n):
                 if isinstance(c, (ast.expr_context, ast.operator, ast.cmpop, ast.unaryop, ast.boolop)):
-                    sig.append(type(c).__name__)
+                    if ops or isinstance(c, ast.expr_context):
+                        sig.append(type(c).__name__)
+                    else:
+                        sig.append('op')
                     continue
                 rec(c)
     rec(node)
     return tuple(sig), toks
 
 
+_LOCAL_TWINS = {}
+
+
+def _local_twins(func_node):
+    """Names of one function that differ only in a leading x/y (`xc`/`yc`, `xlo`/`ylo`) and that the vocabulary does not know:
+    both occur in the function, so within it they are the two axes' versions of one quantity."""
+    ids = {n.id for n in ast.walk(func_node) if isinstance(n, ast.Name)} | {a.arg for a in ast.walk(func_node) if isinstance(a, ast.arg)}
+    out = {}
+    for a in ids:
+        if len(a) >= 2 and a[0] == 'x' and ('y' + a[1:]) in ids and mirror_name(a) is None:
+            out[a] = 'y' + a[1:]
+            out['y' + a[1:]] = a
+    return out
+
+
 def flip_tok(tok):
     kind, v = tok
     if kind in ('id', 'attr', 'kw') and isinstance(v, str):
         m = mirror_name(v)
+        if m is None and kind == 'id' and v in _LOCAL_TWINS:
+            m = _LOCAL_TWINS[v]
         return (kind, m) if m else tok
     if kind == 'axidx':
         return (kind, 1 - v)
@@ -456,12 +481,12 @@ def flip_tok(tok):
     return tok
 
 
-def mirror_compare(s1, s2, known_mirror=False):
+def mirror_compare(s1, s2, known_mirror=False, ops=True):
     """Compare statement s2 with the axis-flip of s1.
     Returns ('mirror', 0) for an exact mirror, ('copy-paste', [(i, tok1, tok2)])
     for the copy-paste signature, (None, ...) otherwise."""
-    sig1, t1 = leaves(s1)
-    sig2, t2 = leaves(s2)
+    sig1, t1 = leaves(s1, ops)
+    sig2, t2 = leaves(s2, ops)
     if sig1 != sig2 or len(t1) != len(t2) or not t1:
         return None, None
     f1 = [flip_tok(t) for t in t1]
@@ -469,8 +494,11 @@ def mirror_compare(s1, s2, known_mirror=False):
     # (`xmirror`/`ymirror` at the same position of two identically shaped statements)
     for i, (a, b) in enumerate(zip(t1, t2)):
         if f1[i] == a and a[0] == b[0] and a[0] in ('id', 'attr', 'kw') and isinstance(a[1], str) and isinstance(b[1], str) \
-                and len(a[1]) > 1 and a[1][1:] == b[1][1:] and {a[1][0], b[1][0]} == {'x', 'y'}:
-            f1[i] = b
+                and len(a[1]) > 1 and len(a[1]) == len(b[1]):
+            # one character differs and it is x <-> y (`xmirror`/`ymirror`, `nxpts`/`nypts`)
+            d_ = [k for k in range(len(a[1])) if a[1][k] != b[1][k]]
+            if len(d_) == 1 and {a[1][d_[0]], b[1][d_[0]]} == {'x', 'y'}:
+                f1[i] = b
     n_axis = sum(1 for a, b in zip(t1, f1) if a != b)
     if n_axis == 0:
         return None, None
@@ -483,6 +511,39 @@ def mirror_compare(s1, s2, known_mirror=False):
     return None, diffs
 
 
+def operator_mismatch(s1, s2):
+    """For two constructs that are exact axis mirrors: the first position at which their operators differ
+    (`xmax <= 0` / `ymax < 0`, `x + 1` / `y - 1`), or None."""
+    o1 = [type(o).__name__ for o in ast.walk(s1) if isinstance(o, (ast.cmpop, ast.operator, ast.unaryop, ast.boolop))]
+    o2 = [type(o).__name__ for o in ast.walk(s2) if isinstance(o, (ast.cmpop, ast.operator, ast.unaryop, ast.boolop))]
+    if len(o1) != len(o2):
+        return None
+    for a, b in zip(o1, o2):
+        if a != b:
+            return a, b
+    return None
+
+
+_ARITH_HELPERS = {'max', 'min', 'int', 'round', 'abs', 'float', 'np', 'math', 'floor', 'ceil', 'rint', 'maximum', 'minimum', 'clip'}
+_ROTATION = re.compile(r'(^|_)(cos|sin|cost|sint|cosa|sina|cospa|sinpa)($|_)|^(cos|sin)')
+
+
+def asymmetric_pair(e1, e2):
+    """e2 mentions exactly the axis-flipped names of e1 (at least one of them an axis name) but combines them differently:
+    `x - max(0, b.ixmin)` / `y - b.iymin`.  Rotations (sin/cos mixes) are asymmetric by nature and skipped."""
+    s1, t1 = leaves(e1)
+    s2, t2 = leaves(e2)
+    if s1 == s2:
+        return False
+    n1 = [t for t in t1 if t[0] in ('id', 'attr', 'kw', 'axidx') and t[1] not in _ARITH_HELPERS]
+    n2 = [t for t in t2 if t[0] in ('id', 'attr', 'kw', 'axidx') and t[1] not in _ARITH_HELPERS]
+    if not n1 or not n2 or not any(flip_tok(t) != t for t in n1):
+        return False
+    if any(t[0] in ('id', 'attr') and _ROTATION.search(str(t[1])) for t in n1 + n2):
+        return False
+    return sorted(map(str, (flip_tok(t) for t in n1))) == sorted(map(str, n2))
+
+
 def mirror_scan_block(stmts):
     """Adjacent (and next-but-one) statement pairs of a block."""
     out = []
@@ -493,10 +554,26 @@ def mirror_scan_block(stmts):
                 kind, diffs = mirror_compare(stmts[i], stmts[j])
                 if kind:
                     out.append((kind, stmts[i], stmts[j], diffs))
+                elif j == i + 1 and isinstance(stmts[i], (ast.Assign, ast.AugAssign, ast.If)) and type(stmts[i]) is type(stmts[j]):
+                    # exact mirrors except for an operator (`x1 = x + 1` / `y1 = y - 1`): reported by the caller
+                    kind, diffs = mirror_compare(stmts[i] if not isinstance(stmts[i], ast.If) else stmts[i].test,
+                                                 stmts[j] if not isinstance(stmts[j], ast.If) else stmts[j].test, ops=False)
+                    if kind == 'mirror':
+                        out.append((kind, stmts[i] if not isinstance(stmts[i], ast.If) else stmts[i].test,
+                                    stmts[j] if not isinstance(stmts[j], ast.If) else stmts[j].test, diffs))
     return out
 
 
 def mirror_scan_function(func_node):
+    global _LOCAL_TWINS
+    _LOCAL_TWINS = _local_twins(func_node)
+    try:
+        return _mirror_scan_function(func_node)
+    finally:
+        _LOCAL_TWINS = {}
+
+
+def _mirror_scan_function(func_node):
     res = []
     for n in ast.walk(func_node):
         for fld in ('body', 'orelse', 'finalbody'):
@@ -509,6 +586,25 @@ def mirror_scan_function(func_node):
             kind, diffs = mirror_compare(n.elts[0], n.elts[1])
             if kind:
                 res.append((kind, n.elts[0], n.elts[1], diffs))
+            elif asymmetric_pair(n.elts[0], n.elts[1]):
+                res.append(('asymmetric', n.elts[0], n.elts[1], []))
+        for fld in ('body', 'orelse'):
+            blk = getattr(n, fld, None)
+            if isinstance(blk, list):
+                for a, b in zip(blk, blk[1:]):
+                    if isinstance(a, ast.Assign) and isinstance(b, ast.Assign) and len(a.targets) == 1 and len(b.targets) == 1 \
+                            and isinstance(a.targets[0], ast.Name) and isinstance(b.targets[0], ast.Name) \
+                            and mirror_name(a.targets[0].id) == b.targets[0].id and asymmetric_pair(a.value, b.value):
+                        res.append(('asymmetric', a.value, b.value, []))
+        if isinstance(n, ast.BoolOp) and isinstance(n.op, ast.Or):
+            # x/y twins among the alternatives of one `or`: `xmax <= 0 or ymax <= 0` (a conjunction may legitimately treat
+            # the axes differently: quadrant tests)
+            for i, a in enumerate(n.values):
+                for b in n.values[i + 1:]:
+                    if isinstance(a, ast.Compare) and isinstance(b, ast.Compare):
+                        kind, diffs = mirror_compare(a, b, ops=False)
+                        if kind == 'mirror':
+                            res.append((kind, a, b, diffs))
         if isinstance(n, ast.Call):
             kws = [k for k in n.keywords if k.arg]
             for a in kws:
